@@ -10,12 +10,13 @@ import (
 //
 // A local slice variable that a closure captures lives in a heap cell; its length is then a fact
 // about memory, not about a register.  For a load  t = *cell  the lower bound  len(t) ≥ n  holds when
-//   (a) the cell does not escape: it is only loaded, stored, and bound as a free variable of
-//       closures of the same function, which in turn only load and store it;
-//   (b) every store to the cell, in the function and in those closures, stores
-//       append(<load of the cell>, …), i.e. never shortens it — except stores in the function
-//       from which the load cannot be reached (the final trimming after the loops);
-//   (c) a store  *cell = append(*cell, x…)  with len(x) ≥ n dominates the load.
+//
+//	(a) the cell does not escape: it is only loaded, stored, and bound as a free variable of
+//	    closures of the same function, which in turn only load and store it;
+//	(b) every store to the cell, in the function and in those closures, stores
+//	    append(<load of the cell>, …), i.e. never shortens it — except stores in the function
+//	    from which the load cannot be reached (the final trimming after the loops);
+//	(c) a store  *cell = append(*cell, x…)  with len(x) ≥ n dominates the load.
 func (g *cgraph) growCellLenLo(ld *ssa.UnOp) int64 {
 	if ld.Op != token.MUL {
 		return 0
